@@ -66,4 +66,11 @@ CHECKS = {
                  "combination plus byte-wise mutations of valid encodings of random types is executed in isolated workers (4 GiB address space, 10 s budget) and TLC "
                  "judges each outcome: value or error with a message, no panic / fault / timeout, input untouched, allocation within 1 MiB + 4 KiB per input byte.",
          "note": "Real-code observation on model-generated inputs (DESIGN.md section 8): an out-of-bounds read through unsafe that neither faults nor changes the outcome is invisible. " + TB},
+ "C08": {"technique": "TLA+ classification of type definitions (accept / reject / either) + codec-level model, TLC-enumerated definition universe replayed on CodecForType and judged",
+         "text": "TLC enumerates field kind x position x tag string x exported-ness (7.7k definitions, incl. every unsupported kind in every position, duplicate "
+                 "indexes and recursive definitions that must fail) and checks the classification's own sanity; each definition goes to the real CodecForType: "
+                 "must-reject -> an error with a message, never a panic; a returned codec is used on the zero and a populated value into a pre-populated target "
+                 "and judged with the model (documented bytes for must-accept definitions, value-level round trip otherwise; skipped fields neither encoded nor "
+                 "written); after a rejection the types possibly published on the way are requested again and used.",
+         "note": TB + " The abstract reading of each tag string is part of the specification's table (strconv.Atoi semantics)."},
 }
